@@ -208,4 +208,328 @@ theorem seeds_total_struct {spec : Spec} (wf : SpecWF spec) (hp : Placed spec) :
   unfold seeds
   simp only [hlay, layoutInits_struct wf, hce, hbe, hee, hse, hte]
 
+/-! ## the keys of the structure layout are strictly increasing -/
+
+/-- width of a structure on the line: its strands, each with its blank(s) -/
+def widthT (l : List (Nat × StrandObj)) : Nat := (l.map (fun q => q.2.len + Generated.structGapStrands)).sum
+
+theorem offT_lt (l : List (Nat × StrandObj)) {x : Nat} (hx : x < (l.map (fun q => q.2.len)).sum) :
+    offT l x < widthT l := by
+  induction l generalizing x with
+  | nil => simp at hx
+  | cons q l ih =>
+    simp only [List.map_cons, List.sum_cons] at hx
+    simp only [offT, widthT, List.map_cons, List.sum_cons]
+    by_cases h : x ≥ q.2.len
+    · simp only [h, if_true]
+      have := ih (x := x - q.2.len) (by omega)
+      unfold widthT at this
+      omega
+    · simp only [h, if_false]; omega
+
+theorem offT_mono (l : List (Nat × StrandObj)) {x y : Nat} (hxy : x < y) (hy : y < (l.map (fun q => q.2.len)).sum) :
+    offT l x < offT l y := by
+  induction l generalizing x y with
+  | nil => simp at hy
+  | cons q l ih =>
+    simp only [List.map_cons, List.sum_cons] at hy
+    simp only [offT]
+    by_cases hx : x ≥ q.2.len
+    · have hy' : y ≥ q.2.len := by omega
+      simp only [hx, hy', if_true]
+      have := ih (x := x - q.2.len) (y := y - q.2.len) (by omega) (by omega)
+      omega
+    · simp only [hx, if_false]
+      by_cases hy' : y ≥ q.2.len
+      · simp only [hy', if_true]; omega
+      · simp only [hy', if_false]; exact hxy
+
+theorem layStructStrands_end (l : List (Nat × StrandObj)) (ss : List (Option Nat)) (p : Nat) :
+    (layStructStrands l ss p).2 = p + widthT l := by
+  induction l generalizing ss p with
+  | nil => simp [layStructStrands, widthT]
+  | cons q l ih =>
+    obtain ⟨i, o⟩ := q
+    simp only [layStructStrands, ih, widthT, List.map_cons, List.sum_cons]
+    omega
+
+theorem layStructAux_total_ge (spec : Spec) (l : List StructObj) (ss : List (Option Nat)) (p : Nat) :
+    p ≤ (layStructAux spec l ss p).2.2 := by
+  induction l generalizing ss p with
+  | nil => simp [layStructAux]
+  | cons so l ih =>
+    simp only [layStructAux]
+    refine Nat.le_trans ?_ (ih _ _)
+    rw [layStructStrands_end]; omega
+
+theorem layStructAux_starts (spec : Spec) (l : List StructObj) (ss : List (Option Nat)) (p : Nat) :
+    (∀ j so, l[j]? = some so → p ≤ (layStructAux spec l ss p).1.getD j 0 ∧
+      (layStructAux spec l ss p).1.getD j 0 + widthT (structStrands spec so) ≤ (layStructAux spec l ss p).2.2) ∧
+    (∀ j j' so, j < j' → j' < l.length → l[j]? = some so →
+      (layStructAux spec l ss p).1.getD j 0 + widthT (structStrands spec so) ≤ (layStructAux spec l ss p).1.getD j' 0) := by
+  induction l generalizing ss p with
+  | nil => simp
+  | cons so0 l ih =>
+    obtain ⟨ih1, ih2⟩ := ih (layStructStrands (structStrands spec so0) ss p).1
+      ((layStructStrands (structStrands spec so0) ss p).2 + (Generated.structGapStructs - Generated.structGapStrands))
+    have hend := layStructStrands_end (structStrands spec so0) ss p
+    constructor
+    · intro j so hj
+      cases j with
+      | zero =>
+        simp only [List.getElem?_cons_zero, Option.some.injEq] at hj
+        subst hj
+        simp only [layStructAux, List.getD_cons_zero]
+        refine ⟨Nat.le_refl _, ?_⟩
+        refine Nat.le_trans ?_ (layStructAux_total_ge spec l _ _)
+        rw [hend]; omega
+      | succ j =>
+        simp only [List.getElem?_cons_succ] at hj
+        obtain ⟨h1, h2⟩ := ih1 j so hj
+        simp only [layStructAux, List.getD_cons_succ]
+        rw [hend] at h1
+        exact ⟨by omega, h2⟩
+    · intro j j' so hjj hj' hj
+      cases j' with
+      | zero => omega
+      | succ j' =>
+        simp only [List.length_cons] at hj'
+        cases j with
+        | zero =>
+          simp only [List.getElem?_cons_zero, Option.some.injEq] at hj
+          subst hj
+          simp only [layStructAux, List.getD_cons_zero, List.getD_cons_succ]
+          have hj'' : ∃ so', l[j']? = some so' := ⟨l[j'], List.getElem?_eq_getElem (by omega)⟩
+          obtain ⟨so', hso'⟩ := hj''
+          have := (ih1 j' so' hso').1
+          rw [hend] at this
+          omega
+        | succ j =>
+          simp only [List.getElem?_cons_succ] at hj
+          simp only [layStructAux, List.getD_cons_succ]
+          exact ih2 j j' so (by omega) (by omega) hj
+
+theorem stStart_facts {spec : Spec} {j : Nat} {so : StructObj} (hjso : (j, so) ∈ enum spec.structs) :
+    stStart spec j + widthT (structStrands spec so) ≤ (layStruct spec).total ∧
+    ∀ j' so', (j', so') ∈ enum spec.structs → j < j' →
+      stStart spec j + widthT (structStrands spec so) ≤ stStart spec j' := by
+  obtain ⟨h1, h2⟩ := layStructAux_starts spec spec.structs (List.replicate spec.strands.length none) 0
+  exact ⟨(h1 j so (enum_getElem? hjso)).2,
+    fun j' so' hj' hjj => h2 j j' so hjj (mem_enum_lt hj') (enum_getElem? hjso)⟩
+
+/-- the keys the structure layout initialises -/
+def keysStruct (spec : Spec) : List Nat :=
+  (posTabStruct spec).map (·.1) ++ (seqInits spec (encOf spec (layStruct spec))).map (·.1)
+
+theorem posKeysT_sorted {spec : Spec} (wf : SpecWF spec) : List.Pairwise (· < ·) ((posTabStruct spec).map (·.1)) := by
+  rw [posTabStruct_keys, List.map_flatMap, List.pairwise_flatMap]
+  constructor
+  · rintro ⟨j, so⟩ hjso
+    simp only [List.map_map, Function.comp_def]
+    rw [List.pairwise_map]
+    refine List.Pairwise.imp_of_mem ?_ List.pairwise_lt_range
+    intro a b ha hb hab
+    have hso : so ∈ spec.structs := (mem_enum hjso).1
+    have := offT_mono (structStrands spec so) hab (by rw [← wf.structLen so hso]; exact List.mem_range.1 hb)
+    omega
+  · refine List.Pairwise.imp_of_mem ?_ (enum_pairwise spec.structs)
+    rintro ⟨j1, so1⟩ ⟨j2, so2⟩ ha hb hab x hx y hy
+    simp only [List.map_map, Function.comp_def, List.mem_map, List.mem_range] at hx hy
+    obtain ⟨x', hx', rfl⟩ := hx
+    obtain ⟨y', hy', rfl⟩ := hy
+    have hso1 : so1 ∈ spec.structs := (mem_enum ha).1
+    have h1 := offT_lt (structStrands spec so1) (x := x') (by rw [← wf.structLen so1 hso1]; exact hx')
+    have h2 := (stStart_facts ha).2 j2 so2 hb hab
+    omega
+
+theorem posKeysT_lt_P {spec : Spec} (wf : SpecWF spec) :
+    ∀ y ∈ (posTabStruct spec).map (·.1), y < (layStruct spec).total := by
+  intro y hy
+  rw [posTabStruct_keys] at hy
+  obtain ⟨p, hp, rfl⟩ := List.mem_map.1 hy
+  obtain ⟨⟨j, so⟩, hq, hp⟩ := List.mem_flatMap.1 hp
+  obtain ⟨x, hx, rfl⟩ := List.mem_map.1 hp
+  have hso : so ∈ spec.structs := (mem_enum hq).1
+  have h1 := offT_lt (structStrands spec so) (x := x) (by rw [← wf.structLen so hso]; exact List.mem_range.1 hx)
+  have h2 := (stStart_facts hq).1
+  simp only
+  omega
+
+theorem keysStruct_nodup {spec : Spec} (wf : SpecWF spec) : (keysStruct spec).Nodup := by
+  have : List.Pairwise (· < ·) (keysStruct spec) := by
+    unfold keysStruct
+    rw [List.pairwise_append]
+    refine ⟨posKeysT_sorted wf, (seqKeys_sorted wf _).1, ?_⟩
+    intro a ha b hb
+    have h1 := posKeysT_lt_P wf a ha
+    have h2 := (seqKeys_sorted wf _).2 b hb
+    simp only [encOf] at h2
+    omega
+  exact List.Pairwise.imp (fun h => Nat.ne_of_lt h) this
+
+/-! ## every link of the structure layout joins keys -/
+
+theorem sqKeyT_item {spec : Spec} (wf : SpecWF spec) {it : ItemRef} {num x : Nat} (hn : numOf spec it = some num)
+    (hx : x < lenOf spec it) : (encOf spec (layStruct spec)).sq num x ∈ keysStruct spec := by
+  apply List.mem_append_right
+  obtain ⟨o, ho, _, hf⟩ := numOf_spec wf hn
+  have hlen : lenOf spec it = o.len := by simp [lenOf, hf]
+  exact sq_mem_seqInits wf _ ho (hlen ▸ hx)
+
+theorem sqKeyT_obj {spec : Spec} (wf : SpecWF spec) {num x : Nat} {o : SeqObj} (ho : objOfNum spec num = some o)
+    (hx : x < o.len) : (encOf spec (layStruct spec)).sq num x ∈ keysStruct spec :=
+  List.mem_append_right _ (sq_mem_seqInits wf _ ho hx)
+
+theorem posKeyT_of_mem {spec : Spec} {a : Nat} {m : Nuc} (h : (a, m) ∈ posTabStruct spec) : a ∈ keysStruct spec :=
+  List.mem_append_left _ (List.mem_map.2 ⟨(a, m), h, rfl⟩)
+
+theorem posKeyT_index {spec : Spec} (wf : SpecWF spec) {j : Nat} {so : StructObj} (hjso : (j, so) ∈ enum spec.structs)
+    {x : Nat} (hx : x < so.len) : stStart spec j + offT (structStrands spec so) x ∈ keysStruct spec := by
+  have hso : so ∈ spec.structs := (mem_enum hjso).1
+  obtain ⟨m, hm⟩ := getElem?_some_of_lt (l := structNucsM spec so) (i := x) (by rw [structNucsM_length wf hso]; exact hx)
+  exact posKeyT_of_mem (posTabStruct_mem hjso hx hm)
+
+theorem edges_keys_struct {spec : Spec} (wf : SpecWF spec) {s : Seeds} (hs : seeds .struct spec = .ok s) :
+    s.inits.map (·.1) = keysStruct spec ∧
+    (∀ e ∈ s.eqE, e.1 ∈ keysStruct spec ∧ e.2 ∈ keysStruct spec) ∧
+    (∀ e ∈ s.wcE, e.1 ∈ keysStruct spec ∧ e.2 ∈ keysStruct spec) := by
+  obtain ⟨li, ce, be, ee, se, te, h1, h2, h3, h4, h5, h6, rfl⟩ := seeds_ok hs
+  rw [layOf_struct] at h1 h2 h3 h4 h5 h6
+  have hli := layoutInits_struct wf
+  rw [h1] at hli
+  have hli := Except.ok.inj hli
+  refine ⟨?_, ?_, ?_⟩
+  · simp only [List.map_append]
+    unfold keysStruct
+    rw [hli, posTabStruct_keys]
+    rfl
+  · intro e he
+    simp only [List.mem_append] at he
+    rcases he with ((he | he) | he) | he
+    · -- copies
+      unfold copyEdges at h2
+      simp only at h2
+      obtain ⟨⟨j, so⟩, hjso, cs, hcs, hecs⟩ := (flatME_mem h2 e).1 he
+      obtain ⟨⟨off, k, o⟩, hoff, cs', hcs', hecs'⟩ := (flatME_mem hcs e).1 hecs
+      obtain ⟨x, hx, hxe⟩ := mapME_mem hcs' hecs'
+      simp only at hxe
+      have hxl : x < o.len := List.mem_range.1 hx
+      have hso : so ∈ spec.structs := (mem_enum hjso).1
+      have hko : (k, o) ∈ enum spec.strands := structStrands_mem wf (withOffsets_mem _ _ _ hoff)
+      cases ha : getIndexStrand (layStruct spec) k o.len x with
+      | error er => simp [ha] at hxe
+      | ok a =>
+        cases hb : getIndex .struct spec (layStruct spec) j so (off + x) with
+        | error er => simp [ha, hb] at hxe
+        | ok b =>
+          simp only [ha, hb, Except.ok.injEq] at hxe
+          subst hxe
+          obtain ⟨_, m, _, hpos⟩ := strandPos_struct wf hko ha
+          have hbd := withOffsets_bound (fun (q : Nat × StrandObj) => q.2.len) (structStrands spec so) 0 hoff
+          simp only [Nat.zero_add] at hbd
+          have hlt : off + x < so.len := by rw [wf.structLen so hso]; omega
+          rw [getIndex_struct wf hso hlt] at hb
+          cases hb
+          exact ⟨posKeyT_of_mem hpos, posKeyT_index wf hjso hlt⟩
+    · -- equal
+      unfold equalEdges at h4
+      obtain ⟨its, hits, cs, hcs, hecs⟩ := (flatME_mem h4 e).1 he
+      cases its with
+      | nil => simp at hcs
+      | cons first rest =>
+        simp only at hcs
+        obtain ⟨it, hit, cs', hcs', hecs'⟩ := (flatME_mem hcs e).1 hecs
+        by_cases hlen : (lenOf spec it != lenOf spec first) = true
+        · simp [hlen] at hcs'
+        · simp only [hlen, Bool.false_eq_true, if_false] at hcs'
+          have hlen' : lenOf spec it = lenOf spec first := by simpa using hlen
+          obtain ⟨x, hx, hxe⟩ := mapME_mem hcs' hecs'
+          have hxl : x < lenOf spec it := List.mem_range.1 hx
+          cases ha : sqOf spec (encOf spec (layStruct spec)) first x with
+          | error er => simp [ha] at hxe
+          | ok a =>
+            cases hb : sqOf spec (encOf spec (layStruct spec)) it x with
+            | error er => simp [ha, hb] at hxe
+            | ok b =>
+              simp only [ha, hb, Except.ok.injEq] at hxe
+              subst hxe
+              obtain ⟨na, hna, rfl⟩ := sqOf_ok ha
+              obtain ⟨nb, hnb, rfl⟩ := sqOf_ok hb
+              exact ⟨sqKeyT_item wf hna (by omega), sqKeyT_item wf hnb hxl⟩
+    · -- sup
+      unfold supEdges at h5
+      obtain ⟨⟨k, o⟩, hko, cs, hcs, hecs⟩ := (flatME_mem h5 e).1 he
+      obtain ⟨⟨off, it⟩, hoff, cs', hcs', hecs'⟩ := (flatME_mem hcs e).1 hecs
+      obtain ⟨x, hx, hxe⟩ := mapME_mem hcs' hecs'
+      simp only at hxe
+      have hxl : x < lenOf spec it := List.mem_range.1 hx
+      cases hb : sqOf spec (encOf spec (layStruct spec)) it x with
+      | error er => simp [hb] at hxe
+      | ok b =>
+        simp only [hb, Except.ok.injEq] at hxe
+        subst hxe
+        obtain ⟨num, hn, rfl⟩ := sqOf_ok hb
+        obtain ⟨ho1, _, _, _⟩ := objOfNum_sup hko
+        have hmem := mem_supSeqs (mem_enum hko).1
+        simp only at hmem
+        have okI := wf.sup o hmem.1 hmem.2
+        obtain ⟨_, hlt⟩ := items_index wf okI hoff hxl
+        have hv : viewNucs o false = nucsOfBases o.bases := by simp [viewNucs, basesOfView]
+        have hlen : off + x < o.len := by rw [← wf.seqLen o hmem.1, hv]; exact hlt
+        exact ⟨sqKeyT_obj wf ho1 hlen, sqKeyT_item wf hn hxl⟩
+    · -- strand
+      unfold strandEdges at h6
+      obtain ⟨⟨k, o⟩, hko, cs, hcs, hecs⟩ := (flatME_mem h6 e).1 he
+      obtain ⟨⟨off, it⟩, hoff, cs', hcs', hecs'⟩ := (flatME_mem hcs e).1 hecs
+      obtain ⟨x, hx, hxe⟩ := mapME_mem hcs' hecs'
+      simp only at hxe
+      have hxl : x < lenOf spec it := List.mem_range.1 hx
+      cases ha : getIndexStrand (layStruct spec) k o.len (off + x) with
+      | error er => simp [ha] at hxe
+      | ok a =>
+        cases hb : sqOf spec (encOf spec (layStruct spec)) it x with
+        | error er => simp [ha, hb] at hxe
+        | ok b =>
+          simp only [ha, hb, Except.ok.injEq] at hxe
+          subst hxe
+          obtain ⟨num, hn, rfl⟩ := sqOf_ok hb
+          obtain ⟨_, m, _, hpos⟩ := strandPos_struct wf hko ha
+          exact ⟨posKeyT_of_mem hpos, sqKeyT_item wf hn hxl⟩
+  · intro e he
+    simp only [List.mem_append] at he
+    rcases he with he | he
+    · -- bonds
+      unfold bondEdges at h3
+      obtain ⟨⟨j, so⟩, hjso, cs, hcs, hecs⟩ := (flatME_mem h3 e).1 he
+      obtain ⟨⟨x, y⟩, hxy, hxe⟩ := mapME_mem hcs hecs
+      simp only at hxe
+      have hso : so ∈ spec.structs := (mem_enum hjso).1
+      obtain ⟨hx, hy⟩ := wf.bondsLt so hso (x, y) hxy
+      simp only at hx hy
+      rw [getIndex_struct wf hso hx, getIndex_struct wf hso hy] at hxe
+      simp only [Except.ok.injEq] at hxe
+      subst hxe
+      exact ⟨posKeyT_index wf hjso hx, posKeyT_index wf hjso hy⟩
+    · -- views
+      unfold viewEdges at he
+      rcases List.mem_append.1 he with he | he
+      · obtain ⟨⟨k, o⟩, hko, he⟩ := List.mem_flatMap.1 he
+        obtain ⟨x, hx, rfl⟩ := List.mem_map.1 he
+        obtain ⟨h0, h1', _, _⟩ := objOfNum_base hko
+        have hxl := List.mem_range.1 hx
+        exact ⟨sqKeyT_obj wf h1' hxl, sqKeyT_obj wf h0 (by omega)⟩
+      · obtain ⟨⟨k, o⟩, hko, he⟩ := List.mem_flatMap.1 he
+        obtain ⟨x, hx, rfl⟩ := List.mem_map.1 he
+        obtain ⟨h0, h1', _, _⟩ := objOfNum_sup hko
+        have hxl := List.mem_range.1 hx
+        exact ⟨sqKeyT_obj wf h1' hxl, sqKeyT_obj wf h0 (by omega)⟩
+
+/-- **The structure layout never raises during the seeding when every non-empty strand occurs in a structure.** -/
+theorem seeding_total_struct {spec : Spec} (wf : SpecWF spec) (hp : Placed spec) :
+    ∃ s c, seeds .struct spec = .ok s ∧ build s = .ok c := by
+  obtain ⟨s, hs⟩ := seeds_total_struct wf hp
+  obtain ⟨hk, hE, hW⟩ := edges_keys_struct wf hs
+  obtain ⟨c, hc⟩ := build_total s (hk ▸ keysStruct_nodup wf) (fun e he => hk ▸ hE e he) (fun e he => hk ▸ hW e he)
+  exact ⟨s, c, hs, hc⟩
+
 end Pepper.ConstraintGen
